@@ -72,7 +72,7 @@ def rules_st(draw):
     rules = []
     for _ in range(n):
         al = draw(st.sampled_from(["absent", "absent", "empty", "one", "several"]))
-        allowed = {"absent": None, "empty": [], "one": [draw(st.sampled_from(["ec-a", "rsa-a", "ed-a", "twin-a"]))],
+        allowed = {"absent": None, "empty": [], "one": [draw(st.sampled_from(["ec-a", "rsa-a", "ed-a", "twin-a", "twin-b"]))],
                    "several": draw(st.lists(st.sampled_from(["ec-a", "rsa-a", "ed-a", "ec-b"]), min_size=2, max_size=3, unique=True))}[al]
         rules.append({"prefix": draw(st.sampled_from(PREFIXES)), "require_cert": draw(st.booleans()), "allowed": allowed})
     return rules
@@ -102,9 +102,17 @@ def case_st(draw):
         for bad in ("%2F", "%00", "\\", "/..", "%20", ";x=1"):
             if sp["path"].endswith(bad):
                 sp["path"] = sp["path"][: -len(bad)] or "/"
-    return {"rules": draw(rules_st()), "via": draw(st.sampled_from(["object", "toml"])), "target": L, "is_dir": is_dir,
-            "path": sp["path"], "labels": sp["labels"], "cert": draw(st.sampled_from(CERTS)),
-            "prior": draw(st.sampled_from([None, None, None, "twin-a", "twin-b"])),
+    rules = draw(rules_st())
+    cert = draw(st.sampled_from(CERTS))
+    prior = draw(st.sampled_from([None, None, None, "twin-a", "twin-b", "ec-a"]))
+    if draw(st.integers(0, 7)) == 0:
+        # an earlier connection of the same server process presented another certificate with the same issuer and
+        # serial number (names and serials of self-signed certificates are chosen by whoever makes them)
+        cert, prior = draw(st.sampled_from([("twin-b", "twin-a"), ("twin-a", "twin-b")]))
+        rules.insert(0, {"prefix": draw(st.sampled_from(["/", "/" + L.strip("/").split("/")[0] + "/" if "/" in L.strip("/") else "/"])),
+                         "require_cert": True, "allowed": [prior]})
+    return {"rules": rules, "via": draw(st.sampled_from(["object", "toml"])), "target": L, "is_dir": is_dir,
+            "path": sp["path"], "labels": sp["labels"], "cert": cert, "prior": prior,
             "tls": draw(st.sampled_from(["1.3", "1.2"]))}
 
 
